@@ -289,6 +289,13 @@ public:
 		return *this;
 	}
 
+	StreamBuffer& operator<<(const Array<String>& x) // the characters of each string, not the String objects
+	{
+		for (int i = 0; i < x.length(); i++)
+			*this << x[i];
+		return *this;
+	}
+
 protected:
 	Endian _endian;
 };
